@@ -10,8 +10,8 @@ import (
 	"github.com/wollac/iota-crypto-demo/pkg/migration"
 	"golang.org/x/crypto/blake2b"
 
-	rb "verifharness/ref/bech32"
 	"verifharness/core"
+	rb "verifharness/ref/bech32"
 )
 
 func init() { core.Register(core.Check{ID: "C19", Level: "exploration", Run: runC19}) }
